@@ -15,6 +15,7 @@
 package compression
 
 import (
+	"errors"
 	"io"
 
 	"connectrpc.com/connect"
@@ -24,12 +25,26 @@ import (
 // brotliDecompressor is a thin wrapper around a brotli Reader.
 type brotliDecompressor struct {
 	reader *brotli.Reader
+	// failed is set when the reader reported a decoding error. A failed
+	// brotli Reader may retain unconsumed input of the malformed stream
+	// even across Reset, which would corrupt the next (valid) stream.
+	failed bool
 }
 
 func (c *brotliDecompressor) Read(bytes []byte) (int, error) {
-	return c.reader.Read(bytes)
+	n, err := c.reader.Read(bytes)
+	if err != nil && !errors.Is(err, io.EOF) {
+		c.failed = true
+	}
+	return n, err
 }
 func (c *brotliDecompressor) Reset(rdr io.Reader) error {
+	if c.failed {
+		// start over with a fresh reader instead of re-using the failed one
+		c.reader = brotli.NewReader(rdr)
+		c.failed = false
+		return nil
+	}
 	return c.reader.Reset(rdr)
 }
 func (c *brotliDecompressor) Close() error {
